@@ -662,7 +662,7 @@ func (st *c12Stream) apply(c c12Case, scratch *[]byte) (d c12Damage, err error) 
 }
 
 // enumerate calls f for every case of the tier, in a fixed order.
-func (st *c12Stream) enumerate(mode string, thorough bool, pairs string, blockPermsOnly bool, hp string, f func(c c12Case) bool) {
+func (st *c12Stream) enumerate(mode string, thorough bool, pairs string, blockPermsOnly, swapsOnly bool, hp string, f func(c c12Case) bool) {
 	if hp != "" {
 		// two-site damage only: one byte outside the payloads (block header fields, type descriptors: the
 		// places that decide whether / how a payload is verified) incremented or zeroed, combined with a
@@ -734,7 +734,22 @@ func (st *c12Stream) enumerate(mode string, thorough bool, pairs string, blockPe
 			}
 		}
 	}
-	if blockPermsOnly {
+	if swapsOnly {
+		// every transposition of two messages (streams of many blocks: m! orders are out of reach, m(m-1)/2 swaps are not)
+		for i := 0; i < m; i++ {
+			for j := i + 1; j < m; j++ {
+				c := mk("perm", 0, 0)
+				c.Perm = make([]int, m)
+				for k := range c.Perm {
+					c.Perm[k] = k
+				}
+				c.Perm[i], c.Perm[j] = j, i
+				if !f(c) {
+					return
+				}
+			}
+		}
+	} else if blockPermsOnly {
 		// type descriptors hoisted to the front (still a well-formed gob stream), then every
 		// order of the blocks - including the original one
 		var tds, blocks []int
@@ -1174,7 +1189,7 @@ func TestVerif_C12(t *testing.T) {
 
 	idx, mine := 0, 0
 	capped := false
-	st.enumerate(mode, env.Thorough() && env.Params["extra"] != "0", env.Params["pairs"], env.Params["perms"] == "blocks", env.Params["hp"], func(c c12Case) bool {
+	st.enumerate(mode, env.Thorough() && env.Params["extra"] != "0", env.Params["pairs"], env.Params["perms"] == "blocks", env.Params["perms"] == "swaps", env.Params["hp"], func(c c12Case) bool {
 		i := idx
 		idx++
 		if i%env.NShards != env.Shard {
